@@ -7,6 +7,8 @@ NOREROUTE_SCHED = [False, False, 'resume', 'restart', 'resample']
 PROFILES = {
     'generic': {},
     'lattice': {'p_lattice': 1.0},
+    'soak': {'horizons': [500.0, 1000.0], 'arr_scale': 2.5, 'srv_scale': 0.5, 'p_qcap': 0.3, 'p_syscap': 0.3, 'n_nodes': [1, 2, 3]},
+    'soaklattice': {'horizons': [300.0, 600.0], 'arr_scale': 2.5, 'srv_scale': 0.5, 'p_lattice': 1.0, 'n_nodes': [1, 2, 3]},
     'slotall': {'p_kinds': (0.25, 0.0, 0.0, 0.75), 'p_ps': 0.0, 'p_qcap_sched': 0.3, 'arr_scale': 0.7},
     'infall': {'p_kinds': (0.3, 0.7, 0.0, 0.0), 'p_ps': 0.3},
     'exactall': {'p_exact': 1.0, 'p_ps': 0.0},
@@ -99,6 +101,9 @@ BUDGET = {  # tier -> (runs, event cap, wall seconds per run, tie policies)
 }
 
 
+SOAK = 150   # thorough tier only: long runs (horizon 300-1000, light load) for drift that needs thousands of events per node
+
+
 def plan(prop, tier, vseed):
     """Deterministic list of (profile name, seed, tie policy hint) jobs for a property / tier / VERIF_SEED."""
     profs, scope, deciding = PLANS[prop]
@@ -112,6 +117,9 @@ def plan(prop, tier, vseed):
         for j in range(cnt):
             jobs.append((name, base + k))
             k += 1
+    if tier == 'thorough':
+        for j in range(SOAK):
+            jobs.append(('soak' if j % 3 else 'soaklattice', base + 900000 + j))
     return jobs
 
 
